@@ -166,6 +166,8 @@ MUTANTS = [
     Mutant("legacy-message-str", LOG, "        text = \" \".join(map(reflect.safe_str, edm))", "        text = \" \".join(map(str, edm))", expect_rule="escape/unprotected"),
 ]
 SILENT = [
+    Silent("timestamp-in-private-helper-taking-the-formatter", FMT, _TS_FIXED, "        timeStamp = _stamp(event, formatTime)\n",
+           more=[(FMT, "def eventAsText(\n", "def _stamp(event, formatter):\n    try:\n        return formatter(cast(float, event.get(\"log_time\", None))) + \" \"\n    except BaseException:\n        return \"UNFORMATTABLE \"\n\n\ndef eventAsText(\n")]),
     Silent("traceback-note-uses-safe-repr", FMT, "(UNABLE TO OBTAIN TRACEBACK FROM EVENT):\" + safe_str(e)", "(UNABLE TO OBTAIN TRACEBACK FROM EVENT):\" + safe_str(e) + \" in \" + safe_repr(failure)"),
     Silent("traceback-returns-directly-with-renamed-exception", FMT, _TB_FIXED,
            "    try:\n        traceback = failure.getTraceback()\n    except BaseException as problem:\n        why = safe_str(problem)\n        return \"(UNABLE TO OBTAIN TRACEBACK FROM EVENT):\" + why\n"
